@@ -723,3 +723,41 @@ def run(ctx):
                       "`%s` uses `%s`: a literal too large for the accumulator no longer fails, it comes back reduced modulo 2^32 (or clamped) and can pass the "
                       "range checks that follow" % (short(n), short(c).rsplit("::", 1)[-1]))
     ctx.finish_rule()
+
+    # ------------------------------------------------------------------ R12
+    # every sigil of the argument grammar occurs once (`^` before a PC offset, one sign, one radix prefix): a parser that strips its sigil
+    # with a repeat-stripping primitive accepts `^^1`, `--3`, ... as further spellings of `^1`, `-3`
+    ctx.rule("C14.R12", "argument parsers strip their sigils once, not repeatedly", floor=3)
+    PARSE = "lace::debugger::command::parse::"
+    REPEAT = re.compile(r"core::str::<impl str>::(trim_start_matches|trim_end_matches|trim_matches|trim_left_matches|trim_right_matches)$")
+    scope12 = sorted(n for n in prog.fns if prog.fns[n].bkind == "fn" and "debugger::command::parse::" in n and n.startswith("lace::")
+                     and (("TryParse" in n and n.endswith("::try_parse")) or n.startswith(PI)) and "{closure" not in n)
+    ctx.need(len(scope12) >= 3, "the TryParse implementations and the integer parser (found %d)" % len(scope12))
+    for n in scope12:
+        f = prog.fns[n]
+        ctx.instance(1)
+        rep = [(t, c) for b, t, c in f.calls() if c and REPEAT.search(c)]
+        ctx.oblig(not rep, None)
+        for t, c in rep:
+            ctx.violation("repeated-sigil|%s" % short(n), sp_file_line(t.get("sp")),
+                          "`%s` strips its prefix with `%s`, which removes every repetition of it: `^^1` (or a doubled sign/prefix) is then accepted as a "
+                          "second spelling the grammar does not have" % (short(n), short(c).rsplit("::", 1)[-1]))
+    ctx.finish_rule()
+
+    # ------------------------------------------------------------------ R13
+    # the characters the integer syntax knows besides digits: signs, `#`, the radix letters in both cases, and the lone/leading zero. Anything
+    # else that the integer parser or its pre-classifier treat specially (a digit separator, say) makes some label a number: the
+    # debugger tries a location as an integer before it looks it up as a label, while the assembler's lexer falls back to "label"
+    ctx.rule("C14.R13", "the integer syntax has no special characters beyond sign, #, radix letters and 0", floor=2)
+    WANT13 = set(map(ord, "+-#xXoObB0"))
+    for fname in (PINT, PI + "take_sign", PI + "take_prefix", NAIVE):
+        f = ctx.fn(fname)
+        got13 = char_consts(fname)
+        ctx.instance(1)
+        extra = sorted(chr(c) for c in got13 - WANT13 if not chr(c).isalnum())
+        ctx.oblig(not extra, {"characters singled out by": short(fname), "set": sorted(map(chr, got13))}, "subset of + - # x X o O b B 0 (and digits/letters of the radix alphabets)")
+        if extra:
+            ctx.violation("integer-extra-char|%s" % short(fname), f.file_line(),
+                          "`%s` gives the character(s) %s a meaning inside integers: a label such as `x_1` (which the assembler accepts) is then read as the "
+                          "number 1 wherever a location is expected, and its word can no longer be named" % (short(fname), extra))
+    ctx.finish_rule()
